@@ -67,7 +67,13 @@ type File struct {
 	closed  bool
 	rng     uint64
 	isDir   bool
+	alias   *File // /dev/stdout and friends: another name of a standard stream
 }
+
+// BlockedForever is what a run ends with (by panic, like ExitSentinel) when it
+// reads from something nobody will ever write to or close: its own standard
+// output, a pipe whose only writer it is itself.
+type BlockedForever struct{ What string }
 
 const (
 	roleOther = iota
@@ -93,6 +99,7 @@ type World struct {
 	ExitCode int
 	OutFile  string // name of the file opened through Create, if any
 	InFile   string
+	Blocked  string // set when the run blocked forever (see BlockedForever)
 }
 
 var (
@@ -211,6 +218,9 @@ func Create(name string) (*File, error) {
 	if name == "" {
 		return nil, &fs.PathError{Op: "open", Path: name, Err: syscall.ENOENT}
 	}
+	if f := streamAlias(name); f != nil {
+		return f, nil
+	}
 	w.Files[name] = []byte{}
 	touch(name)
 	w.OutFile = name
@@ -236,6 +246,9 @@ func OpenFile(name string, flag int, perm fs.FileMode) (*File, error) {
 	if w.Dirs[name] {
 		return nil, &fs.PathError{Op: "open", Path: name, Err: syscall.EISDIR}
 	}
+	if f := streamAlias(name); f != nil {
+		return f, nil
+	}
 	old, exists := w.Files[name]
 	switch {
 	case !exists && flag&syscall.O_CREAT == 0, name == "":
@@ -259,6 +272,18 @@ func OpenFile(name string, flag int, perm fs.FileMode) (*File, error) {
 	}
 	w.OutFile = name
 	return f, nil
+}
+
+// streamAlias returns a handle on a standard stream for the names the system
+// gives them in the file system (`-o /dev/stdout`).
+func streamAlias(name string) *File {
+	switch name {
+	case "/dev/stdout", "/dev/fd/1", "/proc/self/fd/1":
+		return &File{name: name, role: roleOut, alias: Stdout}
+	case "/dev/stderr", "/dev/fd/2", "/proc/self/fd/2":
+		return &File{name: name, role: roleErr, alias: Stderr}
+	}
+	return nil
 }
 
 // ReadFile mirrors os.ReadFile.
